@@ -1,5 +1,8 @@
 // C01/C02 driver: the real babylon::ConcurrentBoundedQueue<uint64_t> under the deterministic scheduler.
-// stdin lines:  <case-id> <sched-seed> <strategy> <slot-bits> <spurious 0/1> <program>
+// stdin lines:  <case-id> <sched-seed> <strategy> <slot-bits> <flags> <program>
+//   flags: bit 0 = futex_wait may return spuriously / with EINTR; bits 1.. = fast-forward code ff:
+//   ff = 1/2/3 starts the queue as if E = 32767 / 32768 / 65535 full turns of the ring had already passed
+//   (indices E*capacity, every slot version (2E) mod 2^16), so that the run crosses the 16-bit version wrap
 //   program = threads separated by '|', ops separated by ','  (c,w,k = CONCURRENT, USE_FUTEX_WAIT, USE_FUTEX_WAKE as 0/1):
 //     P<cwk>:<v>        push<c,w,k>(v)              O<cwk>          pop<c,w,k>
 //     p<cwk>:<v>        try_push<c,k>(v)            o<cwk>          try_pop<c,k>
@@ -102,6 +105,17 @@ int main(int argc, char** argv) {
     const size_t cap = (size_t)1 << kbits;
     Q* qp = new Q(cap);
     Q& q = *qp;
+    {
+      int ff = spurious >> 1;
+      spurious &= 1;
+      if (ff) {
+        size_t E = ff == 1 ? 32767 : (ff == 2 ? 32768 : 65535);
+        q._next_push_index.store(E * cap, std::memory_order_relaxed);
+        q._next_pop_index.store(E * cap, std::memory_order_relaxed);
+        for (size_t i = 0; i < cap; ++i)
+          q._slots.futex(i)._futex.value().store((uint32_t)((2 * E) & 0xFFFF), std::memory_order_relaxed);
+      }
+    }
     cells.clear(); m_excl = m_state = m_publish = true; filler = 1000000;
     size_t producers = 0, producers_done = 0;
     for (auto& th : threads) { bool p = false; for (auto& o : th) if (strchr("PpNnX", o.k)) p = true; producers += p; }
